@@ -4,25 +4,35 @@ C19 - container lifting (loop / loops) maps leaf-wise, preserves shape and conta
 zipper / lens broadcasting; as_list / as_tuple idempotent normalisers; waiter independent of completion order.
 """
 import asyncio
+import copy
 import itertools
+import json
 
 from hypothesis import strategies as st
 
 from pv.core import Sub, EnumSub, Violation, call, call_or, must_raise, check, short
 
 ASSUMPTIONS = [
-    'containers are list / tuple / dict / Dict / dictattr with string keys or (homogeneous) integer keys (what loop(list, tuple, dict) lifts over), depth <= 4, container sizes 0-3; "same shape" includes the key order of dicts',
+    'containers are list / tuple / dict / Dict / dictattr with string keys or numeric keys that sort (small integers, integers beyond 2**53, integers next to one float) - what loop(list, tuple, dict) lifts over, depth <= 4, container sizes 0-3; "same shape" includes the key order of dicts',
+    'a companion dict whose numeric keys are EQUAL to the keys of the looped dict but of another numeric type (2.0 or numpy.int64(2) for 2) has the same keys (python dict semantics: they address the same entries) and is matched by key',
+    'strings of any length are scalars (broadcast whole, never matched character by character) - the text helpers rely on it (sep = ", ")',
     'different-shape companions are flat lists of 0-5 scalars (matched wherever a list / tuple of exactly that length sits, broadcast elsewhere), or dicts with scalar values over foreign keys or over any subset of the key alphabet (matched where the key sets coincide, broadcast elsewhere): the documented '
     '"re-match deeper" rule of _item_by_i/_item_by_key then cannot fire by accident and plain broadcasting is the only reading',
-    'same-shape companions mirror the structure to depth k and are scalars below; no companion is named "axis" (a keyword the decorator consumes)',
-    'replace(): `old` is one character or a list of 4-5 single characters not contained in `new`; split(): `sep` is a non-empty string',
+    'same-shape companions mirror the structure to depth k and are scalars below (or are the operand object itself); no companion is named "axis" (a keyword the decorator consumes)',
+    'lifted functions are pure and of the shapes f(x, a=, b=), f(y, a=, b=), f(x, *, a=, b=), f(x, *rest), f(x, **kw), f(*a, **kw); a function without a named first parameter receives the structure positionally (there is no name to pass it by)',
+    'replace(): `old` is a string of 1-2 characters or a list / tuple of 1-5 single characters, none contained in `new` (a list as long as a list / tuple of the structure is matched element by element there, like any companion); split(): `sep` is a non-empty string of 1-2 characters or a list / tuple of 1-3 single characters; '
+    'the python-string-method anchor is applied where old / sep are single characters broadcast whole, the leaf-by-leaf lifting law everywhere',
     'as_tuple idempotence is claimed on values whose elements are not lists: as_tuple(([[3]],)) unwraps one level per call by design of the *args idiom',
-    'zipper arguments: scalars, strings (scalars to zipper), lists/tuples; no dicts/sets',
-    'waiter: awaitables are asyncio futures or coroutines awaiting one; the harness resolves futures in the generated order with sleep(0) between',
+    'zipper arguments: scalars, strings (scalars to zipper), lists / tuples / ranges / 1-d numpy arrays; no dicts/sets; lens is called when every argument is a sequence',
+    'waiter: awaitables are asyncio futures (possibly the same future object at several places)  or coroutines awaiting one; the harness resolves futures in the generated order with sleep(0) between; '
+    'a second waiter call on the same structure is made only when it holds no coroutine objects (python forbids awaiting those twice)',
+    'sessions (several calls on the same objects) judge every call by the ORIGINAL content of the operands: the statement maps "the original leaves", a callee that edits its arguments breaks the later calls',
 ]
 
 _leaf = st.one_of(st.integers(0, 9), st.sampled_from(['p', 'q', 'Rs', ' t ']), st.none(), st.sampled_from([0.5, 1.25]))
 _KEYS = ['a', 'b', 'c']
+_BIG_KEYS = [2 ** 53, 2 ** 53 + 1, 7]
+_MIXED_KEYS = [0.5, 2 ** 53 + 1, -3]
 _CTAGS = ['list', 'tuple', 'dict', 'Dict', 'dictattr']
 
 
@@ -48,7 +58,8 @@ def _tree(draw, d, leaf=None):
     if t in ('list', 'tuple'):
         return [t, kids]
     # integer keys whose numeric order differs from their string order (2 < 10 but '10' < '2') in a share of the dicts
-    keys = draw(st.permutations(draw(st.sampled_from([_KEYS, _KEYS, _KEYS, [2, 10, 5], [-1, 10, 3]]))))[:n]
+    # ... and, in a smaller share, numeric keys a vectorised sort would mangle: integers beyond 2**53, integers next to a float
+    keys = draw(st.permutations(draw(st.sampled_from([_KEYS, _KEYS, _KEYS, _KEYS, [2, 10, 5], [-1, 10, 3], _BIG_KEYS, _MIXED_KEYS]))))[:n]
     return [t, [[k, v] for k, v in zip(keys, kids)]]
 
 
@@ -56,19 +67,38 @@ _l1 = _node(_leaf.map(lambda x: ['leaf', x]))     # includes empty containers
 _structure = st.sampled_from([0, 1, 1, 2, 2, 2, 3, 3, 3, 4]).flatmap(lambda d: _l1 if d == 1 else _tree(d))
 
 
-def build(s):
+def build(s, memo=None):
+    """memo (a dict) = build structurally equal sub-containers ONCE: the same object then sits at several places of the structure"""
     t = s[0]
     if t == 'leaf':
         return s[1]
+    if memo is not None:
+        tok = json.dumps(s)
+        if tok in memo:
+            return memo[tok]
     if t == 'list':
-        return [build(x) for x in s[1]]
-    if t == 'tuple':
-        return tuple(build(x) for x in s[1])
-    d = {k: build(x) for k, x in s[1]}
-    if t == 'dict':
-        return d
-    import pyg_base
-    return getattr(pyg_base, t)(d)
+        r = [build(x, memo) for x in s[1]]
+    elif t == 'tuple':
+        r = tuple(build(x, memo) for x in s[1])
+    else:
+        r = {k: build(x, memo) for k, x in s[1]}
+        if t != 'dict':
+            import pyg_base
+            r = getattr(pyg_base, t)(r)
+    if memo is not None:
+        memo[tok] = r
+    return r
+
+
+def _conv_key(k, conv):
+    """the same number in another raw type: 2 -> 2.0 / numpy.int64(2). Only where the value is exactly representable, and never numpy integers next to floats in one
+    dict: numpy compares int64 with float64 after rounding (numpy.int64(2**53 + 1) == 2.0**53), so such a key set would not be the operand's key set any more"""
+    if conv in (None, 'none') or isinstance(k, bool) or not isinstance(k, int):
+        return k
+    if conv == 'float':
+        return float(k) if abs(k) <= 2 ** 53 else k
+    import numpy as np
+    return np.int64(k)
 
 
 def depth(s):
@@ -78,14 +108,20 @@ def depth(s):
     return 1 + max([depth(k) for k in kids], default=0)
 
 
-def mirror(s, k, fill):
-    """companion of the same shape as s down to depth k, scalars `fill(path)` below"""
+def mirror(s, k, fill, conv=None, seen=None):
+    """companion of the same shape as s down to depth k, scalars `fill(path)` below; conv: numeric dict keys in another raw type (seen[0] = some key was converted)"""
     def rec(s, k, path):
         if s[0] == 'leaf' or k == 0:
             return ['leaf', fill(path)]
         if s[0] in ('list', 'tuple'):
             return [s[0], [rec(x, k - 1, path + (i,)) for i, x in enumerate(s[1])]]
-        return [s[0], [[key, rec(x, k - 1, path + (key,))] for key, x in s[1]]]
+        out = []
+        for key, x in s[1]:
+            ck = _conv_key(key, conv)
+            if seen is not None and type(ck) is not type(key):
+                seen[0] = True
+            out.append([ck, rec(x, k - 1, path + (key,))])
+        return [s[0], out]
     return rec(s, k, ())
 
 
@@ -137,140 +173,346 @@ def _long_structure(draw):
     return node if draw(st.booleans()) else ['list', [node, ['leaf', 'tail']]]
 
 
+_SCALAR_COMPS = [100, 'S', None, 'pq', 'xyz']       # strings of length 2-3: as long as the sequences of the structure, still scalars
+
+
+@st.composite
+def _comp(draw, d, j, lens=()):
+    """one companion argument for a structure of depth d (j = its position among the companions); lens = the lengths of the lists / tuples of the structure"""
+    kind = draw(st.sampled_from(['scalar', 'same', 'same', 'same_partial', 'flat_list', 'flat_list', 'other_dict', 'overlap_dict']))
+    if kind == 'scalar':
+        # ... in a share of the cases a string exactly as long as some list / tuple of the structure
+        c = ['leaf', draw(st.sampled_from(_SCALAR_COMPS + [v for v in ('pq', 'xyz') if len(v) in lens] * 3))]
+    elif kind == 'same':
+        # the full mirror (numeric dict keys as they are, or the same numbers as float / numpy.int64), or the operand OBJECT itself
+        c = draw(st.sampled_from([['mirror', d, j], ['mirror', d, j], ['mirror', d, j, 'float'], ['mirror', d, j, 'np'], ['self']]))
+    elif kind == 'same_partial':
+        c = ['mirror', draw(st.integers(0, max(d - 1, 0))), j] + draw(st.sampled_from([[], [], ['float'], ['np']]))
+    elif kind == 'flat_list':
+        # any length: where it equals the length of a list / tuple of the structure it is matched there, everywhere else (length 0, 1, ...) broadcast whole
+        c = [draw(st.sampled_from(['list', 'tuple'])), [['leaf', v] for v in (lambda k: draw(st.lists(st.integers(50, 59), min_size=k, max_size=k)))(draw(st.sampled_from([0, 1, 1, 1, 2, 3, 4, 5])))]]
+    elif kind == 'overlap_dict':
+        # any key set over the structure's key alphabet plus a foreign key, scalar values: where it equals a dict's key set it is matched by key,
+        # everywhere else (e.g. same size, partly overlapping keys) it must be broadcast whole
+        c = [draw(st.sampled_from(['dict', 'Dict'])), [[k, ['leaf', 'o%i:%s' % (j, k)]] for k in draw(st.lists(st.sampled_from(_KEYS + ['x']), min_size=1, max_size=3, unique=True))]]
+    else:
+        c = ['dict', [[k, ['leaf', draw(st.integers(70, 79))]] for k in draw(st.lists(st.sampled_from(['x', 'y', 'z']), min_size=1, max_size=2, unique=True))]]
+    return dict(kind=kind, spec=c)
+
+
+# shapes of the lifted function: what each allows for the companions (pos / kw) and for the first argument (by keyword or not)
+_SHAPES = ['std', 'std', 'std', 'std', 'std', 'y_first', 'kwonly', 'rest', 'kwargs', 'star']
+_DEFAULTS = {'scalars': ('dA', 'dB'), 'containers': (('t0', 't1'), ['l0', 'l1', 'l2']), 'containers2': ({'a': 'A', 'b': 'B'}, ('u0',))}
+
+
+def _fix_hows(shape, hows, first_kw):
+    """the nearest way of passing the companions that python / the shape of the function allows"""
+    if shape == 'star':
+        first_kw = False                          # f(*a, **kw) has no name for its first argument
+    if shape == 'rest':
+        first_kw = False                          # positional companions need a positional first argument
+    if first_kw or shape in ('kwonly', 'kwargs'):
+        hows = ['kw'] * len(hows)
+    elif shape == 'rest':
+        hows = ['pos'] * len(hows)
+    # positional companions must precede: a positional second companion requires a positional first one
+    if len(hows) == 2 and hows[0] == 'kw' and hows[1] == 'pos':
+        hows = ['pos', 'pos']
+    return hows, first_kw
+
+
+@st.composite
+def _shared_structure(draw):
+    """ONE container object sitting at two places of the structure (build(..., memo) makes the equal specs one object)"""
+    sub = draw(st.sampled_from([1, 1, 2, 2, 3]).flatmap(lambda d: _l1 if d == 1 else _tree(d)))
+    other = draw(st.one_of(st.just(None), _leaf.map(lambda v: ['leaf', v])))
+    kids = [sub, sub] + ([other] if other is not None else [])
+    t = draw(st.sampled_from(['list', 'tuple', 'dict']))
+    return [t, kids] if t != 'dict' else ['dict', [[k, v] for k, v in zip(draw(st.permutations(_KEYS)), kids)]]
+
+
 @st.composite
 def _lift_case(draw):
-    s = draw(st.one_of(*([_structure] * 9 + [_long_structure()])))
+    which = draw(st.sampled_from(['any'] * 17 + ['long'] * 2 + ['shared'] * 2))
+    s = draw(_structure if which == 'any' else _long_structure() if which == 'long' else _shared_structure())
     d = depth(s)
+    lens = sorted(_struct_facts(s)[0])
     ncomp = draw(st.sampled_from([0, 1, 1, 2, 2]))
     comps = []
     for j in range(ncomp):
-        kind = draw(st.sampled_from(['scalar', 'same', 'same', 'same_partial', 'flat_list', 'flat_list', 'other_dict', 'overlap_dict']))
-        if kind == 'scalar':
-            c = ['leaf', draw(st.sampled_from([100, 'S', None]))]
-        elif kind == 'same':
-            c = ['mirror', d, j]
-        elif kind == 'same_partial':
-            c = ['mirror', draw(st.integers(0, max(d - 1, 0))), j]
-        elif kind == 'flat_list':
-            # any length: where it equals the length of a list / tuple of the structure it is matched there, everywhere else (length 0, 1, ...) broadcast whole
-            c = [draw(st.sampled_from(['list', 'tuple'])), [['leaf', v] for v in (lambda k: draw(st.lists(st.integers(50, 59), min_size=k, max_size=k)))(draw(st.sampled_from([0, 1, 1, 1, 2, 3, 4, 5])))]]
-        elif kind == 'overlap_dict':
-            # any key set over the structure's key alphabet plus a foreign key, scalar values: where it equals a dict's key set it is matched by key,
-            # everywhere else (e.g. same size, partly overlapping keys) it must be broadcast whole
-            c = [draw(st.sampled_from(['dict', 'Dict'])), [[k, ['leaf', 'o%i:%s' % (j, k)]] for k in draw(st.lists(st.sampled_from(_KEYS + ['x']), min_size=1, max_size=3, unique=True))]]
-        else:
-            c = ['dict', [[k, ['leaf', draw(st.integers(70, 79))]] for k in draw(st.lists(st.sampled_from(['x', 'y', 'z']), min_size=1, max_size=2, unique=True))]]
-        comps.append(dict(kind=kind, spec=c, how=draw(st.sampled_from(['pos', 'pos', 'kw']))))
+        c = draw(_comp(d, j, lens))
+        c['how'] = draw(st.sampled_from(['pos', 'pos', 'kw']))
+        comps.append(c)
+    if ncomp == 2 and draw(st.sampled_from([True] + [False] * 7)):
+        comps[1] = dict(kind=comps[0]['kind'], spec=['twin'], how=comps[1]['how'])      # the SAME object as the first companion
     first_kw = draw(st.sampled_from([False, False, False, False, False, True]))
-    if first_kw:
-        for c in comps:
-            c['how'] = 'kw'
-    # positional companions must precede: a positional second companion requires a positional first one
-    if len(comps) == 2 and comps[0]['how'] == 'kw' and comps[1]['how'] == 'pos':
-        comps[0]['how'] = 'pos'
+    shape = draw(st.sampled_from(_SHAPES))
     # the defaults the lifted function declares for a and b: strings, or containers as long as / keyed like parts of the structure may be
-    return dict(s=s, comps=comps, first_kw=first_kw, defaults=draw(st.sampled_from(['scalars', 'scalars', 'containers', 'containers2'])))
+    defaults = draw(st.sampled_from(['scalars', 'scalars', 'containers', 'containers2']))
+    hows, first_kw = _fix_hows(shape, [c['how'] for c in comps], first_kw)
+    for c, h in zip(comps, hows):
+        c['how'] = h
+    return dict(s=s, comps=comps, first_kw=first_kw, defaults=defaults, shape=shape, share=which == 'shared')
 
 
-def _leaf_fn(x, a='dA', b='dB'):
-    return ('leaf', x, a, b)
+def _make_leaf_fn(shape, defaults, tag='leaf'):
+    """a pure leaf function of the given shape (all of them come out of this ONE factory); the declared defaults are fresh objects for every function made"""
+    da, db = copy.deepcopy(_DEFAULTS[defaults])
+    if shape == 'std':
+        def f(x, a=da, b=db):
+            return (tag, x, a, b)
+        sig = 'f(x, a=%r, b=%r)' % (da, db)
+    elif shape == 'y_first':
+        def f(y, a=da, b=db):
+            return (tag, y, a, b)
+        sig = 'f(y, a=%r, b=%r)' % (da, db)
+    elif shape == 'kwonly':
+        def f(x, *, a=da, b=db):
+            return (tag, x, a, b)
+        sig = 'f(x, *, a=%r, b=%r)' % (da, db)
+    elif shape == 'rest':
+        def f(x, *rest):
+            return (tag, x, rest)
+        sig = 'f(x, *rest)'
+    elif shape == 'kwargs':
+        def f(x, **kw):
+            return (tag, x, sorted(kw.items()))
+        sig = 'f(x, **kw)'
+    else:
+        def f(*a, **kw):
+            return (tag, a, sorted(kw.items()))
+        sig = 'f(*a, **kw)'
+    return f, sig
 
 
-def _leaf_fn_c(x, a=('t0', 't1'), b=['l0', 'l1', 'l2']):
-    return ('leaf', x, a, b)
+def _first_name(shape):
+    return 'y' if shape == 'y_first' else 'x'
 
 
-def _leaf_fn_c2(x, a={'a': 'A', 'b': 'B'}, b=('u0',)):
-    return ('leaf', x, a, b)
+def _has_defaults(shape):
+    return shape in ('std', 'y_first', 'kwonly')
 
 
-_LEAF_FNS = {'scalars': _leaf_fn, 'containers': _leaf_fn_c, 'containers2': _leaf_fn_c2}
-
-
-def run_lift(spec):
-    from pyg_base import loop
-    s = spec['s']
-    x = build(s)
+def _build_args(s, x, comps):
+    """positional and keyword companions (and all of them in order); 'self' is the operand object x, 'twin' the first companion's object"""
     names = ['a', 'b']
-    pos, kw = [], {}
-    kinds = []
-    for j, c in enumerate(spec['comps']):
+    pos, kw, vals = [], {}, []
+    for j, c in enumerate(comps):
         cs = c['spec']
-        if cs[0] == 'mirror':
-            cs = mirror(s, cs[1], lambda path, j=j: 'm%i:%s' % (j, '.'.join(map(str, path))))
-        v = build(cs)
-        kinds.append(c['kind'] + ':' + c['how'])
+        if cs[0] == 'self':
+            v = x
+        elif cs[0] == 'twin':
+            v = vals[0]
+        else:
+            if cs[0] == 'mirror':
+                cs = mirror(s, cs[1], lambda path, j=cs[2]: 'm%i:%s' % (j, '.'.join(map(str, path))), cs[3] if len(cs) > 3 else None)
+            v = build(cs)
+        vals.append(v)
         if c['how'] == 'pos':
             pos.append(v)
         else:
             kw[names[j]] = v
-    leaf_fn = _LEAF_FNS[spec.get('defaults', 'scalars')]
-    lifted = loop(list, tuple, dict)(leaf_fn)
-    what = 'loop(list,tuple,dict)(f%s)(%s%s%s)' % ('' if leaf_fn is _leaf_fn else ' declared as f(x, a=%r, b=%r)' % leaf_fn.__defaults__, 'x=' if spec['first_kw'] else '', short(x, 150), ''.join(', %s' % short(p, 80) for p in pos) + ''.join(', %s=%s' % (k, short(v, 80)) for k, v in kw.items()))
-    if spec['first_kw']:
-        res = call(what, lambda: lifted(x=x, **kw))
-    else:
-        res = call(what, lambda: lifted(x, *pos, **kw))
-    exp = model_lift(leaf_fn, x, pos, kw)
-    check(same_shape(res, exp), '%s = %s, leaf-wise model says %s', what, res, exp)
-    d = depth(s)
-    pos_same = any(c['how'] == 'pos' and c['kind'].startswith('same') for c in spec['comps'])
-    tags = set()
+    return pos, kw, vals
+
+
+def _struct_facts(s):
+    """lengths of the lists / tuples, sorted key tuples of the dicts, container tags, longest container, integer keys?"""
+    lens_seen, keys_seen, tags = set(), set(), set()
+    facts = dict(maxlen=0, int_keys=False, big_keys=False)
 
     def walk(s):
-        if s[0] != 'leaf':
-            tags.add(s[0])
-            for k in (s[1] if s[0] in ('list', 'tuple') else [v for _, v in s[1]]):
-                walk(k)
-    walk(s)
-    cls = ['depth=%i' % d, 'ncomp=%i' % len(spec['comps'])] + kinds + (['first_by_keyword'] if spec['first_kw'] else [])
-    lens_seen, keys_seen = set(), set()
-
-    def shapes(s):
+        if s[0] == 'leaf':
+            return
+        tags.add(s[0])
         if s[0] in ('list', 'tuple'):
-            lens_seen.add(len(s[1]))
-            for k in s[1]:
-                shapes(k)
-        elif s[0] != 'leaf':
+            kids = s[1]
+            lens_seen.add(len(kids))
+        else:
+            kids = [v for _, v in s[1]]
             keys_seen.add(tuple(sorted(str(k) for k, _ in s[1])))
-            for _, v in s[1]:
-                shapes(v)
-    shapes(s)
-    if leaf_fn is not _leaf_fn:
+            if any(isinstance(k, int) for k, _ in s[1]):
+                facts['int_keys'] = True
+            if any(isinstance(k, float) or (isinstance(k, int) and abs(k) >= 2 ** 53) for k, _ in s[1]):
+                facts['big_keys'] = True
+        facts['maxlen'] = max(facts['maxlen'], len(kids))
+        for k in kids:
+            walk(k)
+    walk(s)
+    return lens_seen, keys_seen, tags, facts
+
+
+def _converted_keys(s, comps):
+    """does some mirror companion carry numeric keys in another raw type than the structure's?"""
+    for c in comps:
+        cs = c['spec']
+        if cs[0] == 'mirror' and len(cs) > 3:
+            seen = [False]
+            mirror(s, cs[1], lambda path: 0, cs[3], seen)
+            if seen[0]:
+                return True
+    return False
+
+
+def _lift_classes(spec, pos, kw):
+    """class labels of one lifted call (shared by the single-call and the session sub-check)"""
+    s, comps = spec['s'], spec['comps']
+    shape, defaults = spec.get('shape', 'std'), spec.get('defaults', 'scalars')
+    names = ['a', 'b']
+    d = depth(s)
+    lens_seen, keys_seen, tags, facts = _struct_facts(s)
+    kinds = [c['kind'] + ':' + c['how'] for c in comps]
+    pos_same = any(c['how'] == 'pos' and c['kind'].startswith('same') for c in comps)
+    cls = ['depth=%i' % d, 'ncomp=%i' % len(comps), 'fn_shape=' + shape] + kinds + (['first_by_keyword'] if spec['first_kw'] else [])
+    if _has_defaults(shape) and defaults != 'scalars':
         unfilled = [nm for i, nm in enumerate(names) if nm not in kw and i >= len(pos)]
         for nm in unfilled:
-            dv = leaf_fn.__defaults__[names.index(nm)]
+            dv = _DEFAULTS[defaults][names.index(nm)]
             if (isinstance(dv, (list, tuple)) and len(dv) in lens_seen) or (isinstance(dv, dict) and tuple(sorted(dv)) in keys_seen):
                 cls.append('unfilled_container_default_shaped_like_the_data')
                 break
-    for c, v in zip(spec['comps'], pos + [kw[n] for n in names if n in kw]):
+    for c, v in zip(comps, pos + [kw[n] for n in names if n in kw]):
         if c['kind'] == 'flat_list' and len(v) <= 1 and any(l != len(v) for l in lens_seen):
             cls.append('companion_of_length_0_or_1_next_to_longer_sequences')
             break
-
-    def _maxlen(s):
-        if s[0] == 'leaf':
-            return 0
-        kids = s[1] if s[0] in ('list', 'tuple') else [v for _, v in s[1]]
-        return max([len(kids)] + [_maxlen(k) for k in kids])
-    if _maxlen(s) >= 40:
+    if any(c['spec'][0] == 'leaf' and isinstance(c['spec'][1], str) and len(c['spec'][1]) >= 2 and len(c['spec'][1]) in lens_seen for c in comps):
+        cls.append('string_companion_as_long_as_a_sequence')
+    if d >= 1 and any(c['spec'][0] == 'self' for c in comps):
+        cls.append('companion_is_the_operand_object')
+    if any(c['spec'][0] == 'twin' and c['kind'] != 'scalar' for c in comps):
+        cls.append('one_companion_object_passed_twice')
+    if spec.get('share'):
+        cls.append('one_container_object_at_two_places')
+        if any(c['kind'] in ('same', 'same_partial', 'flat_list') for c in comps):
+            cls.append('one_container_object_at_two_places_with_matched_companion')
+    if _converted_keys(s, comps):
+        cls.append('companion_keys_in_another_numeric_type')
+    if facts['big_keys']:
+        cls.append('numeric_keys_beyond_2**53_or_int_next_to_float')
+        if any(c['kind'].startswith('same') for c in comps):
+            cls.append('numeric_keys_beyond_2**53_or_int_next_to_float_with_same_shape_companion')
+    if shape in ('rest', 'kwargs', 'star', 'kwonly') and comps and d >= 1:
+        cls.append('fn_with_varargs_or_keyword_only_and_companions')
+    if facts['maxlen'] >= 40:
         cls.append('container_of_40+')
     if d >= 2 and pos_same:
         cls.append('depth>=2_positional_same_shape')
     if len(tags) >= 2:
         cls.append('mixed_container_types')
-
-    def _int_keys(s):
-        if s[0] == 'leaf':
-            return False
-        if s[0] in ('list', 'tuple'):
-            return any(_int_keys(k) for k in s[1])
-        return any(isinstance(k, int) for k, _ in s[1]) or any(_int_keys(v) for _, v in s[1])
-    if _int_keys(s):
+    if facts['int_keys']:
         cls.append('integer_dict_keys')
-        if any(c['kind'].startswith('same') for c in spec['comps']):
+        if any(c['kind'].startswith('same') for c in comps):
             cls.append('integer_dict_keys_with_same_shape_companion')
-    return dict(nt=(d >= 2 and pos_same) or len(tags) >= 2, cls=cls)
+    return cls, (d >= 2 and pos_same) or len(tags) >= 2
+
+
+def _describe(sig, first, first_kw, x, pos, kw):
+    return 'loop(list,tuple,dict)(%s)(%s%s%s)' % (sig, first + '=' if first_kw else '', short(x, 150), ''.join(', %s' % short(p, 80) for p in pos) + ''.join(', %s=%s' % (k, short(v, 80)) for k, v in kw.items()))
+
+
+def run_lift(spec):
+    from pyg_base import loop
+    s = spec['s']
+    shape, defaults = spec.get('shape', 'std'), spec.get('defaults', 'scalars')
+    x = build(s, {} if spec.get('share') else None)
+    pos, kw, _ = _build_args(s, x, spec['comps'])
+    leaf_fn, sig = _make_leaf_fn(shape, defaults)
+    lifted = loop(list, tuple, dict)(leaf_fn)
+    what = _describe(sig, _first_name(shape), spec['first_kw'], x, pos, kw)
+    if spec['first_kw']:
+        res = call(what, lambda: lifted(**{_first_name(shape): x}, **kw))
+    else:
+        res = call(what, lambda: lifted(x, *pos, **kw))
+    # the model works on equal copies built from the spec, with a function of its own: the original content, whatever the call did to its arguments
+    x0 = build(s)
+    pos0, kw0, _ = _build_args(s, x0, spec['comps'])
+    exp = model_lift(_make_leaf_fn(shape, defaults)[0], x0, pos0, kw0)
+    check(same_shape(res, exp), '%s = %s, leaf-wise model says %s', what, res, exp)
+    cls, nt = _lift_classes(spec, pos, kw)
+    return dict(nt=nt, cls=cls)
+
+
+# ----------------------------------------------------------------------------- sessions: several calls on the same objects, one decorator object for two functions
+
+@st.composite
+def _session_case(draw):
+    which = draw(st.sampled_from(['any'] * 8 + ['shared']))
+    s = draw(st.sampled_from([1, 1, 2, 2, 2, 3, 3, 3, 4]).flatmap(lambda d: _l1 if d == 1 else _tree(d)) if which == 'any' else _shared_structure())
+    d = depth(s)
+    lens = sorted(_struct_facts(s)[0])
+    pool = [draw(_comp(d, j, lens)) for j in range(draw(st.sampled_from([1, 2, 2, 3])))]
+    # 'two_names': the two functions call their first parameter x and y, and each is called (at least once) with the structure passed by that name
+    scenario = draw(st.sampled_from(['free', 'free', 'free', 'two_names']))
+    if scenario == 'two_names':
+        shapes = list(draw(st.permutations([draw(st.sampled_from(['std', 'std', 'kwonly', 'kwargs'])), 'y_first'])))
+    else:
+        shapes = [draw(st.sampled_from(_SHAPES + ['y_first', 'kwonly'])) for _ in range(2)]
+    defaults = [draw(st.sampled_from(['scalars', 'scalars', 'containers', 'containers2'])) for _ in range(2)]
+    base = list(draw(st.permutations(list(range(len(pool))))))
+    calls = []
+    for i in range(draw(st.sampled_from([2, 2, 3, 3, 4]))):
+        # the argument lists are prefixes / extensions / permutations of one another
+        if calls and len(calls[-1]['use']) >= 2 and draw(st.sampled_from([True, False, False])):
+            use = calls[-1]['use'][::-1]
+        else:
+            order = base if draw(st.sampled_from([True, True, False])) else base[::-1]
+            use = order[:draw(st.integers(0, min(2, len(order))))]
+        fn = draw(st.sampled_from([0, 0, 1])) if scenario == 'free' or i >= 2 else i
+        first_kw = draw(st.sampled_from([False, False, True])) if scenario == 'free' or i >= 2 else True
+        hows, first_kw = _fix_hows(shapes[fn], [draw(st.sampled_from(['pos', 'pos', 'kw'])) for _ in use], first_kw)
+        calls.append(dict(fn=fn, use=use, hows=hows, first_kw=first_kw))
+    return dict(s=s, share=which == 'shared', pool=pool, shapes=shapes, defaults=defaults, calls=calls, one_decorator=draw(st.sampled_from([True, True, False])))
+
+
+def run_session(spec):
+    from pyg_base import loop
+    s = spec['s']
+    x = build(s, {} if spec['share'] else None)                      # the operand and the companions are built ONCE ...
+    _, _, objs = _build_args(s, x, [dict(c, how='pos') for c in spec['pool']])
+    made = [_make_leaf_fn(sh, df, tag='leaf%i' % i) for i, (sh, df) in enumerate(zip(spec['shapes'], spec['defaults']))]
+    if spec['one_decorator']:
+        deco = loop(list, tuple, dict)                               # ... and ONE decorator object lifts both functions
+        lifted = [deco(f) for f, _ in made]
+    else:
+        lifted = [loop(list, tuple, dict)(f) for f, _ in made]
+    names = ['a', 'b']
+    cls = ['calls=%i' % len(spec['calls']), 'depth=%i' % depth(s)]
+    fns_used, fn_kw, containers_used, prev = set(), set(), False, None
+    for n, c in enumerate(spec['calls']):
+        shape, defaults = spec['shapes'][c['fn']], spec['defaults'][c['fn']]
+        comps = [dict(spec['pool'][i], how=h) for i, h in zip(c['use'], c['hows'])]
+        pos = [objs[i] for i, h in zip(c['use'], c['hows']) if h == 'pos']
+        kw = {names[j]: objs[i] for j, (i, h) in enumerate(zip(c['use'], c['hows'])) if h == 'kw'}
+        first = _first_name(shape)
+        what = 'call %i of %i on the same objects: %s' % (n + 1, len(spec['calls']), _describe(made[c['fn']][1], first, c['first_kw'], x, pos, kw))
+        if c['first_kw']:
+            res = call(what, lambda: lifted[c['fn']](**{first: x}, **kw))
+        else:
+            res = call(what, lambda: lifted[c['fn']](x, *pos, **kw))
+        # every call is judged by the single-call model on the ORIGINAL content (fresh copies, a function object of the model's own)
+        x0 = build(s)
+        _, _, objs0 = _build_args(s, x0, [dict(k, how='pos') for k in spec['pool']])
+        pos0 = [objs0[i] for i, h in zip(c['use'], c['hows']) if h == 'pos']
+        kw0 = {names[j]: objs0[i] for j, (i, h) in enumerate(zip(c['use'], c['hows'])) if h == 'kw'}
+        exp = model_lift(_make_leaf_fn(shape, defaults, tag='leaf%i' % c['fn'])[0], x0, pos0, kw0)
+        check(same_shape(res, exp), '%s = %s, leaf-wise model (on the original content of the arguments) says %s', what, res, exp)
+        one, _ = _lift_classes(dict(s=s, comps=comps, first_kw=c['first_kw'], shape=shape, defaults=defaults, share=spec['share']), pos, kw)
+        cls += [l for l in one if not l.startswith(('depth=', 'ncomp=')) and ':' not in l and l not in cls]
+        fns_used.add(c['fn'])
+        if c['first_kw']:
+            fn_kw.add(c['fn'])
+        containers_used = containers_used or any(k['kind'] != 'scalar' for k in comps)
+        if prev is not None:
+            u, v = prev, c['use']
+            rel = 'repeat' if u == v else 'prefix' if v == u[:len(v)] else 'extension' if u == v[:len(u)] else 'permutation' if sorted(u) == sorted(v) else 'other'
+            if 'then_' + rel not in cls:
+                cls.append('then_' + rel)
+        prev = c['use']
+    two = len(fns_used) == 2
+    if two and spec['one_decorator']:
+        cls.append('one_decorator_object_two_functions')
+        if len(fn_kw) == 2 and _first_name(spec['shapes'][0]) != _first_name(spec['shapes'][1]):
+            cls.append('one_decorator_object_two_functions_first_argument_by_two_names')
+    return dict(nt=containers_used, cls=cls)
 
 
 # ----------------------------------------------------------------------------- library functions built with loop
@@ -282,16 +524,28 @@ _txt_structure = st.sampled_from([1, 2, 2, 3, 3]).flatmap(lambda d: _t1 if d == 
 _FUNCS = ['lower', 'upper', 'strip', 'proper', 'capitalize', 'f12', 'as_float', 'replace', 'split']
 
 
+_CHARS = ['a', 'l', ' ', ',', ';', 'o']
+
+
 @st.composite
 def _lib_case(draw):
     s = draw(_txt_structure)
-    fn = draw(st.sampled_from(_FUNCS))
+    fn = draw(st.sampled_from(_FUNCS + ['replace', 'split']))     # the two with further arguments twice (the number of cases went up by the same share)
     spec = dict(s=s, fn=fn)
+    lens = [l for l in sorted(_struct_facts(s)[0]) if 1 <= l <= 3]
+    k = draw(st.sampled_from(lens)) if lens else draw(st.integers(1, 3))      # the length of some list / tuple of the structure, where there is one
+    two = [True] * 3 if 2 in lens else []
     if fn == 'replace':
-        spec['old'] = draw(st.one_of(st.sampled_from(['a', 'l', ' ', ',']), st.lists(st.sampled_from(['a', 'l', ' ', ',', ';', 'o']), min_size=4, max_size=5, unique=True)))
+        # one character, a list of 4-5 characters (longer than any container: broadcast whole), and: a string of two characters, a list / tuple of 1-3
+        # characters - as long as the lists / tuples of the structure may be, where it is then matched element by element like any companion
+        spec['old'] = draw(st.one_of(st.sampled_from(['a', 'l', ' ', ',']), st.lists(st.sampled_from(_CHARS), min_size=4, max_size=5, unique=True),
+                                     st.sampled_from(['a', 'l', ' ', ',']), st.lists(st.sampled_from(_CHARS), min_size=4, max_size=5, unique=True),
+                                     st.sampled_from(['  ', 'll', 'o ']), st.lists(st.sampled_from(_CHARS), min_size=k, max_size=k, unique=True), *[st.sampled_from(['  ', 'll', 'o ']) for _ in two[:1]]))
+        spec['old_type'] = draw(st.sampled_from(['list', 'list', 'tuple']))
         spec['new'] = draw(st.sampled_from([None, '_', 'Z']))
     if fn == 'split':
-        spec['sep'] = draw(st.sampled_from([' ', ',', 'l']))
+        spec['sep'] = draw(st.sampled_from([' ', ',', 'l', ' ', ',', 'l', ', ', 'l ', [' '], [' ', ','], ['l', ' '], [',', ';', ' ']] + [[',', ';', ' '][:k]] * 2 + [', ' for _ in two]))
+        spec['sep_type'] = draw(st.sampled_from(['list', 'list', 'tuple']))
         spec['dedup'] = draw(st.booleans())
     return spec
 
@@ -303,17 +557,41 @@ def _py(fn, spec):
     if fn == 'f12':
         return lambda v: ('%1.2f' % v) if isinstance(v, float) else v
     if fn == 'replace':
-        olds = spec['old'] if isinstance(spec['old'], list) else [spec['old']]
-        new = spec['new'] or ''
-        return lambda v: ''.join(new if ch in olds else ch for ch in v) if isinstance(v, str) else v
-    if fn == 'split':
-        def sp(v):
+        def rep(v, old, new):
+            # old: one character, or what is left of a list of characters at this leaf (a list, or ONE character where the list was matched element by element)
             if not isinstance(v, str):
                 return v
-            words = v.split(spec['sep'])
-            return [w for w in words if w] if spec['dedup'] else words
+            olds = list(old) if isinstance(old, (list, tuple)) else [old]
+            if not all(len(o) == 1 for o in olds):
+                return _NO_ANCHOR
+            return ''.join((new or '') if ch in olds else ch for ch in v)
+        return rep
+    if fn == 'split':
+        def sp(v, sep, dedup):
+            if not isinstance(v, str):
+                return v
+            if isinstance(sep, (list, tuple)):
+                return _NO_ANCHOR
+            words = v.split(sep)
+            return [w for w in words if w] if dedup else words
         return sp
     return None
+
+
+_NO_ANCHOR = ('no independent anchor for this leaf',)
+
+
+def same_or_unanchored(a, b):
+    """same_shape, but leaves where the model has no anchor are accepted"""
+    if b is _NO_ANCHOR:
+        return True
+    if type(a) is not type(b):
+        return False
+    if isinstance(a, dict):
+        return list(a.keys()) == list(b.keys()) and all(same_or_unanchored(a[k], b[k]) for k in a)
+    if _is_seq(a):
+        return len(a) == len(b) and all(same_or_unanchored(i, j) for i, j in zip(a, b))
+    return a == b or (a != a and b != b)
 
 
 def run_lib(spec):
@@ -322,58 +600,139 @@ def run_lib(spec):
     fn = spec['fn']
     x = build(s)
     F = getattr(pyg_base, fn)
+    conv = lambda v, t: (list(v) if t == 'list' else tuple(v)) if isinstance(v, list) else v
     if fn == 'replace':
-        g = lambda v: F(v, spec['old'], spec['new'])
-        what = 'replace(%s, %r, %r)' % (short(x, 150), spec['old'], spec['new'])
+        extra = dict(old=conv(spec['old'], spec.get('old_type', 'list')), new=spec['new'])
+        g = lambda v, old, new: F(v, old, new)
+        what = 'replace(%s, %r, %r)' % (short(x, 150), extra['old'], extra['new'])
     elif fn == 'split':
-        g = lambda v: F(v, spec['sep'], spec['dedup'])
-        what = 'split(%s, %r, %r)' % (short(x, 150), spec['sep'], spec['dedup'])
+        extra = dict(sep=conv(spec['sep'], spec.get('sep_type', 'list')), dedup=spec['dedup'])
+        g = lambda v, sep, dedup: F(v, sep, dedup)
+        what = 'split(%s, %r, %r)' % (short(x, 150), extra['sep'], extra['dedup'])
     else:
+        extra = {}
         g = F
         what = '%s(%s)' % (fn, short(x, 150))
-    res = call(what, g, x)
-    # (1) lifting law: F(structure) == structure with F applied to each leaf on its own
-    exp = model_lift(lambda v: call('%s on leaf %r' % (fn, v), g, v), x, [], {})
+    fresh = lambda: {k: (copy.copy(v) if isinstance(v, list) else v) for k, v in extra.items()}
+    res = call(what, lambda: g(x, **extra))
+    # (1) lifting law: F(structure, further arguments) == structure with F applied to each leaf on its own, the further arguments matched / broadcast by the rule
+    exp = model_lift(lambda v, **k: call('%s on leaf %r with %r' % (fn, v, k), g, v, **k), build(s), [], fresh())
     check(same_shape(res, exp), '%s = %s but applying it leaf by leaf gives %s', what, res, exp)
     # (2) anchor at the leaves
     py = _py(fn, spec)
     if py is not None:
-        exp2 = model_lift(py, x, [], {})
-        check(same_shape(res, exp2), '%s = %s but the python string method at string leaves gives %s', what, res, exp2)
+        exp2 = model_lift(py, build(s), [], fresh())
+        check(same_or_unanchored(res, exp2), '%s = %s but the python string method at string leaves gives %s', what, res, exp2)
+    # (3) the same call once more on the same objects (structure, old / sep list): judged by the original content
+    res2 = call(what + ' called a second time on the same objects', lambda: g(x, **extra))
+    check(same_shape(res2, exp), '%s called a second time on the same objects = %s, the first call gave %s', what, res2, exp)
     d = depth(s)
-    return dict(nt=d >= 2, cls=['fn=' + fn, 'depth=%i' % d])
+    lens_seen = _struct_facts(s)[0]
+    cls = ['fn=' + fn, 'depth=%i' % d]
+    comp = extra.get('old', extra.get('sep'))
+    if isinstance(comp, (list, tuple)) and len(comp) in lens_seen:
+        cls.append('list_argument_as_long_as_a_sequence_of_the_structure')
+    if isinstance(comp, str) and len(comp) == 2 and 2 in lens_seen:
+        cls.append('string_argument_as_long_as_a_sequence_of_the_structure')
+    return dict(nt=d >= 2, cls=cls)
 
 
 # ----------------------------------------------------------------------------- zipper / lens
 
 _zarg = st.one_of(st.integers(0, 9).map(lambda v: ['scalar', v]), st.sampled_from(['s', 'str']).map(lambda v: ['scalar', v]), st.just(['scalar', None]),
                   st.tuples(st.sampled_from(['list', 'tuple']), st.lists(st.integers(0, 9), max_size=4)).map(list),
-                  st.tuples(st.sampled_from(['list', 'tuple']), st.lists(st.integers(0, 9), min_size=2, max_size=4)).map(list))
+                  st.tuples(st.sampled_from(['list', 'tuple']), st.lists(st.integers(0, 9), min_size=2, max_size=4)).map(list),
+                  # the same sequences in other raw types, and ['same', i] = the very object that is argument i (a scalar if there is no such argument)
+                  st.one_of(st.integers(0, 4).map(lambda n: ['range', n]), st.lists(st.integers(0, 9), max_size=4).map(lambda v: ['array', v]), st.integers(0, 2).map(lambda i: ['same', i])))
 
 
-def run_zipper(spec):
+@st.composite
+def _zip_case(draw):
+    args = draw(st.lists(_zarg, max_size=4))
+    again = []
+    for _ in range(draw(st.sampled_from([0, 0, 0, 1, 2])) if args else 0):
+        # further calls on the SAME argument objects: a permutation, cut to a prefix in half of the cases
+        perm = list(draw(st.permutations(list(range(len(args))))))
+        again.append(perm[:draw(st.integers(1, len(perm)))] if draw(st.booleans()) else perm)
+    return dict(args=args, again=again)
+
+
+def _zip_build(spec_args):
+    """argument objects (built once) and the plain description [(kind, elements or value)] the oracle works on"""
+    objs, plain = [], []
+    for a in spec_args:
+        if a[0] == 'same':
+            if a[1] < len(objs):
+                objs.append(objs[a[1]])
+                plain.append(plain[a[1]])
+                continue
+            a = ['scalar', a[1]]
+        if a[0] == 'scalar':
+            objs.append(a[1])
+            plain.append(('scalar', a[1]))
+        elif a[0] == 'range':
+            objs.append(range(a[1]))
+            plain.append(('seq', list(range(a[1]))))
+        elif a[0] == 'array':
+            import numpy as np
+            objs.append(np.array(a[1], dtype='int64'))
+            plain.append(('seq', list(a[1])))
+        else:
+            objs.append(list(a[1]) if a[0] == 'list' else tuple(a[1]))
+            plain.append(('seq', list(a[1])))
+    return objs, plain
+
+
+def _zip_check(what, args, plain):
+    """one zipper (and lens) call judged from the plain description; returns (n or None for a mismatch)"""
     from pyg_base import zipper, lens
-    args = [a[1] if a[0] in ('scalar', 'list') else tuple(a[1]) for a in spec]
-    lengths = [len(a[1]) if a[0] != 'scalar' else None for a in spec]
+    lengths = [len(v) if k == 'seq' else None for k, v in plain]
     seq = set(l for l in lengths if l is not None and l != 1)
-    what = 'zipper(%s)' % ', '.join(short(a, 40) for a in args)
     if len(seq) > 1:
         must_raise(what, ValueError, lambda: list(zipper(*args)))
         if all(l is not None for l in lengths):
             must_raise(what.replace('zipper', 'lens'), ValueError, lens, *args)
-        return dict(nt=True, cls=['mismatch_raises', 'nargs=%i' % len(args)])
+        return None
     n = list(seq)[0] if seq else (1 if args else 0)
     res = call(what, lambda: list(zipper(*args)))
     if not args:
         exp = []
     else:
-        exp = [tuple(a if l is None else (a[0] if l == 1 else a[i]) for a, l in zip(args, lengths)) for i in range(n)]
-    check(res == exp, '%s = %s, expected %s', what, res, exp)
+        exp = [tuple(v if l is None else (v[0] if l == 1 else v[i]) for (k, v), l in zip(plain, lengths)) for i in range(n)]
+    check(len(res) == len(exp) and all(type(r) is tuple and len(r) == len(e) and all(bool(p == q) for p, q in zip(r, e)) for r, e in zip(res, exp)), '%s = %s, expected %s', what, res, exp)
     if args and all(l is not None for l in lengths):    # lens is documented on sequences only (zipper wraps scalars before calling it)
         ln = call(what.replace('zipper', 'lens'), lens, *args)
         check(ln == n, '%s = %s, expected %s', what.replace('zipper', 'lens'), ln, n)
+    return n
+
+
+def run_zipper(spec):
+    if isinstance(spec, list):          # replay files written before the session form
+        spec = dict(args=spec, again=[])
+    args, plain = _zip_build(spec['args'])
+    lengths = [len(v) if k == 'seq' else None for k, v in plain]
+    what = 'zipper(%s)' % ', '.join(short(a, 40) for a in args)
+    n = _zip_check(what, args, plain)
+    # the original content, whatever the calls do to their arguments: every later call on the same objects is judged by it
+    for j, idx in enumerate(spec['again']):
+        sub = [args[i] for i in idx]
+        _zip_check('after %s: call %i on the same objects, zipper(%s)' % (what, j + 2, ', '.join(short(a, 40) for a in sub)), sub, [plain[i] for i in idx])
+    cls = ['nargs=%i' % len(args)]
+    kinds = [a[0] for a in spec['args']]
+    if 'range' in kinds or 'array' in kinds:
+        cls.append('range_or_array_argument')
+        if any(k in ('range', 'array') and l == 1 for k, l in zip(kinds, lengths)) and any(l is not None and l > 1 for l in lengths):
+            cls.append('range_or_array_of_length_1_broadcast')
+    if any(a[0] == 'same' and a[1] < i and plain[i][0] == 'seq' for i, a in enumerate(spec['args'])):
+        cls.append('one_sequence_object_passed_twice')
+    if spec['again']:
+        cls.append('further_calls_on_the_same_objects')
+        if any(l == 1 for l in lengths) and any(l is not None and l > 1 for l in lengths):
+            cls.append('further_calls_after_a_length_1_broadcast')
+    if n is None:
+        return dict(nt=True, cls=['mismatch_raises'] + cls)
     bc = any(l in (None, 1) for l in lengths) and n > 1
-    return dict(nt=bool(bc or n == 0 and args), cls=['broadcast' if bc else 'no_broadcast', 'nargs=%i' % len(args), 'n=%i' % min(n, 2)])
+    return dict(nt=bool(bc or n == 0 and args), cls=['broadcast' if bc else 'no_broadcast', 'n=%i' % min(n, 2)] + cls)
 
 
 # ----------------------------------------------------------------------------- as_list / as_tuple
@@ -385,20 +744,25 @@ _al_el = st.one_of(_al_el_nolist, st.lists(_al_scalar.map(lambda v: ['leaf', v])
 
 @st.composite
 def _al_case(draw):
-    kind = draw(st.sampled_from(['none', 'scalar', 'str', 'list', 'tuple', 'tuple1list', 'range', 'dict', 'keys', 'values']))
+    kind = draw(st.sampled_from(['none', 'scalar', 'str', 'list', 'tuple', 'tuple1list', 'range', 'dict', 'keys', 'values', 'zip', 'none']))
     els = draw(st.lists(_al_el, max_size=3))
     els_nolist = draw(st.lists(_al_el_nolist, max_size=3))
-    return dict(kind=kind, els=els, els_nolist=els_nolist, n=draw(st.integers(0, 3)), v=draw(st.integers(0, 5)))
+    # the option that is off by default: none=True keeps a None as an element ([None] / (None,)); it changes nothing for any other value
+    return dict(kind=kind, els=els, els_nolist=els_nolist, n=draw(st.integers(0, 3)), v=draw(st.integers(0, 5)), none=draw(st.sampled_from([None, None, False, True, True])))
 
 
 def run_as_list(spec):
     from pyg_base import as_list, as_tuple
     kind = spec['kind']
-    cls = ['kind=' + kind]
+    none = spec.get('none')
+    cls = ['kind=' + kind, 'none=%s' % none] + (['None_with_none=True'] if kind == 'none' and none else [])
+    opt = {} if none is None else {'none': none}
     for fname, f, conv, els in (('as_list', as_list, list, spec['els']), ('as_tuple', as_tuple, tuple, spec['els_nolist'])):
         items = [build(e) for e in els]
         if kind == 'none':
-            x, exp = None, []
+            x, exp = None, ([None] if none else [])
+        elif kind == 'zip':
+            x, exp = zip(range(spec['n']), 'abc'), list(zip(range(spec['n']), 'abc'))
         elif kind == 'scalar':
             x, exp = spec['v'], [spec['v']]
         elif kind == 'str':
@@ -421,13 +785,13 @@ def run_as_list(spec):
         else:
             d = {'k%i' % i: i for i in range(spec['n'])}
             x, exp = d.values(), list(d.values())
-        what = '%s(%s)' % (fname, short(x, 100))
-        r1 = call(what, f, x)
+        what = '%s(%s%s)' % (fname, short(x, 100) if kind != 'zip' else "zip(range(%i), 'abc')" % spec['n'], '' if none is None else ', none=%s' % none)
+        r1 = call(what, lambda: f(x, **opt))
         check(type(r1) is conv, '%s returned a %s', what, type(r1).__name__)
         check(list(r1) == exp and all(type(a) is type(b) for a, b in zip(r1, exp)), '%s = %s, expected the elements %s', what, r1, exp)
-        r2 = call('%s(%s)' % (fname, short(r1, 100)), f, r1)
+        r2 = call('%s(%s%s)' % (fname, short(r1, 100), '' if none is None else ', none=%s' % none), lambda: f(r1, **opt))
         check(type(r2) is conv and list(r2) == list(r1) and all(type(a) is type(b) for a, b in zip(r1, r2)), '%s is not idempotent: %s then %s', fname, r1, r2)
-    return dict(nt=kind in ('tuple', 'tuple1list', 'list', 'keys', 'values', 'range'), cls=cls)
+    return dict(nt=kind in ('tuple', 'tuple1list', 'list', 'keys', 'values', 'range', 'zip') or (kind == 'none' and bool(none)), cls=cls)
 
 
 # ----------------------------------------------------------------------------- waiter
@@ -440,18 +804,52 @@ def _w_node(children):
             lambda t: st.lists(st.tuples(st.sampled_from(_KEYS), children).map(list), max_size=3, unique_by=lambda kv: kv[0]).map(lambda v, t=t: [t, v])))
 
 
-_w_leaf = st.one_of(st.integers(0, 5).map(lambda v: ['leaf', v]), st.just(['fut']), st.just(['fut']), st.just(['coro']))
+# ['futref'] = the future object created last before it, once more (a new future if there is none yet)
+_w_leaf = st.one_of(st.integers(0, 5).map(lambda v: ['leaf', v]), st.just(['fut']), st.just(['fut']), st.just(['coro']), st.just(['futref']))
 _w1 = _w_node(_w_leaf)
 _w2 = _w_node(st.one_of(_w_leaf, _w1))
 _w3 = _w_node(st.one_of(_w_leaf, _w1, _w2))
 
 
 def _count_aw(s):
-    if s[0] in ('fut', 'coro'):
-        return 1
-    if s[0] == 'leaf':
-        return 0
-    return sum(_count_aw(k) for k in (s[1] if s[0] in ('list', 'tuple') else [v for _, v in s[1]]))
+    """number of distinct awaitable objects the harness creates for s (a 'futref' reuses the last plain future, if any)"""
+    state = dict(n=0, plain=False)
+
+    def walk(s):
+        if s[0] == 'fut' or (s[0] == 'futref' and not state['plain']):
+            state['n'] += 1
+            state['plain'] = True
+        elif s[0] == 'coro':
+            state['n'] += 1
+        elif s[0] not in ('leaf', 'futref'):
+            for k in (s[1] if s[0] in ('list', 'tuple') else [v for _, v in s[1]]):
+                walk(k)
+    walk(s)
+    return state['n']
+
+
+def _future_reused(s):
+    """does some 'futref' come after a plain future (in creation order), i.e. is one future object placed twice?"""
+    state = dict(plain=False, reused=False)
+
+    def walk(s):
+        if s[0] == 'futref' and state['plain']:
+            state['reused'] = True
+        elif s[0] in ('fut', 'futref'):
+            state['plain'] = True
+        elif s[0] not in ('leaf', 'coro'):
+            for k in (s[1] if s[0] in ('list', 'tuple') else [v for _, v in s[1]]):
+                walk(k)
+    walk(s)
+    return state['reused']
+
+
+def _has(s, tag):
+    if s[0] == tag:
+        return True
+    if s[0] in ('leaf', 'fut', 'coro', 'futref'):
+        return False
+    return any(_has(k, tag) for k in (s[1] if s[0] in ('list', 'tuple') else [v for _, v in s[1]]))
 
 
 @st.composite
@@ -459,25 +857,30 @@ def _waiter_case(draw):
     s = draw(st.one_of(_w1, _w2, _w3, _w_leaf).filter(lambda s: _count_aw(s) <= 6))
     k = _count_aw(s)
     order = draw(st.permutations(list(range(k))))
-    return dict(s=s, order=list(order))
+    # again: a second waiter call on the same structure once everything has completed (possible only without coroutine objects)
+    return dict(s=s, order=list(order), again=draw(st.booleans()) and not _has(s, 'coro'))
 
 
-def _run_waiter(s, order):
+def _run_waiter(s, order, again=False):
     from pyg_base import waiter
 
     async def main():
         loop = asyncio.get_running_loop()
-        futs = []
+        futs, plain = [], []
 
         def mk(s):
             t = s[0]
             if t == 'leaf':
                 return s[1], s[1]
-            if t in ('fut', 'coro'):
+            if t == 'futref' and plain:
+                i = plain[-1]
+                return futs[i], ('val', i)
+            if t in ('fut', 'coro', 'futref'):
                 i = len(futs)
                 f = loop.create_future()
                 futs.append(f)
-                if t == 'fut':
+                if t != 'coro':
+                    plain.append(i)
                     return f, ('val', i)
 
                 async def co(f=f):
@@ -507,16 +910,24 @@ def _run_waiter(s, order):
         if not task.done():
             task.cancel()
             raise Violation('waiter did not complete after every awaitable was resolved in order %s (structure %s)' % (order, s))
-        return task.result(), expected
+        second = (await waiter(structure),) if again else ()
+        return task.result(), expected, second
     return asyncio.run(main())
 
 
 def run_waiter(spec):
-    s, order = spec['s'], spec['order']
-    res, exp = call('waiter(%s) with completion order %s' % (short(s, 150), order), _run_waiter, s, order)
+    s, order, again = spec['s'], spec['order'], bool(spec.get('again'))
+    res, exp, second = call('waiter(%s) with completion order %s' % (short(s, 150), order), _run_waiter, s, order, again)
     check(same_shape(res, exp), 'waiter(%s) with completion order %s returned %s, expected %s', s, order, res, exp)
+    for r in second:
+        check(same_shape(r, exp), 'waiter(%s) called a second time on the same structure, after everything completed in order %s, returned %s, expected %s', s, order, r, exp)
     k = len(order)
-    return dict(nt=k >= 2 and order != sorted(order), cls=['awaitables=%i' % k, 'in_creation_order' if order == sorted(order) else 'permuted'])
+    cls = ['awaitables=%i' % k, 'in_creation_order' if order == sorted(order) else 'permuted']
+    if _future_reused(s):
+        cls.append('one_future_object_at_several_places')
+    if second and k:
+        cls.append('second_call_on_the_same_completed_futures')
+    return dict(nt=k >= 2 and order != sorted(order), cls=cls)
 
 
 _W_FIXED = [
@@ -527,6 +938,7 @@ _W_FIXED = [
     ['Dict', [['a', ['tuple', [['fut'], ['coro']]]], ['b', ['Dict', [['a', ['fut']], ['c', ['fut']]]]], ['c', ['list', [['fut'], ['leaf', 2], ['coro']]]]]],
     ['list', [['coro'], ['coro'], ['coro'], ['coro'], ['coro'], ['coro']]],
     ['list', [['fut'], ['dict', [['a', ['fut']], ['b', ['dict', [['a', ['fut']], ['b', ['tuple', [['fut'], ['fut'], ['fut']]]]]]]]]]],
+    ['list', [['fut'], ['futref'], ['dict', [['a', ['futref']], ['b', ['fut']], ['c', ['tuple', [['futref'], ['coro']]]]]], ['fut'], ['futref']]],     # futures placed several times
 ]
 
 
@@ -547,23 +959,35 @@ SUBS = [
     Sub('lift', lambda tier: _lift_case(), run_lift, quick=3000, thorough=20000,
         rule='nested list/tuple/dict/Dict/dictattr structures (depth <= 4) with 0-2 companions (scalar, same shape to full or partial depth, flat list of 0-5 scalars - matched where a sequence of that length sits, broadcast elsewhere, '
              'dict over other keys), each positional or by keyword, first argument positional or by keyword; the lifted function declares a and b with string defaults or with tuple / list / dict defaults as long as (keyed like) parts of the data, which a leaf must receive whole when the caller leaves them out; oracle: recursive leaf-map model, exact container types. '
+             'Also: dict keys that are strings, small integers, integers beyond 2**53 or integers next to a float; same-shape companions whose numeric keys come as float / numpy.int64, or that ARE the operand object; one companion object passed for a and b; '
+             'one container object at two places of the structure; strings of length 2-3 as scalar companions; lifted functions of the shapes f(x, a=, b=), f(y, ...), f(x, *, a=, b=), f(x, *rest), f(x, **kw), f(*a, **kw) from one factory. '
              'non-trivial = depth >= 2 with a same-shape positional companion, or mixed container types',
-        floor=0.2, class_floors={'unfilled_container_default_shaped_like_the_data': 0.08, 'companion_of_length_0_or_1_next_to_longer_sequences': 0.03, 'depth>=2_positional_same_shape': 0.08, 'first_by_keyword': 0.05, 'container_of_40+': 0.03, 'integer_dict_keys_with_same_shape_companion': 0.03}),
-    Sub('libfuncs', lambda tier: _lib_case(), run_lib, quick=2500, thorough=15000,
+        floor=0.2, class_floors={'unfilled_container_default_shaped_like_the_data': 0.08, 'companion_of_length_0_or_1_next_to_longer_sequences': 0.03, 'depth>=2_positional_same_shape': 0.08, 'first_by_keyword': 0.05, 'container_of_40+': 0.03, 'integer_dict_keys_with_same_shape_companion': 0.03,
+                                 'string_companion_as_long_as_a_sequence': 0.01, 'companion_is_the_operand_object': 0.01, 'one_companion_object_passed_twice': 0.02, 'one_container_object_at_two_places': 0.035,
+                                 'one_container_object_at_two_places_with_matched_companion': 0.014, 'companion_keys_in_another_numeric_type': 0.01, 'numeric_keys_beyond_2**53_or_int_next_to_float_with_same_shape_companion': 0.02,
+                                 'fn_with_varargs_or_keyword_only_and_companions': 0.05}),
+    Sub('lift_session', lambda tier: _session_case(), run_session, quick=1200, thorough=8000,
+        rule='the operand structure and a pool of 1-3 companions are built ONCE, two leaf functions (made by one factory, any two shapes) are lifted - by ONE loop(list, tuple, dict) decorator object in 2 of 3 cases - and 2-4 calls are made on '
+             'these same objects, their companion lists prefixes / extensions / permutations of one another, positional or by keyword; oracle: every call judged by the single-call leaf-map model on the original content of the arguments. '
+             'non-trivial = some call takes a container companion',
+        floor=0.2, class_floors={'one_decorator_object_two_functions': 0.13, 'one_decorator_object_two_functions_first_argument_by_two_names': 0.045, 'then_prefix': 0.1, 'then_extension': 0.12, 'then_permutation': 0.03, 'then_repeat': 0.16,
+                                 'one_container_object_at_two_places': 0.03, 'companion_is_the_operand_object': 0.012, 'fn_with_varargs_or_keyword_only_and_companions': 0.09, 'unfilled_container_default_shaped_like_the_data': 0.06}),
+    Sub('libfuncs', lambda tier: _lib_case(), run_lib, quick=3000, thorough=18000,
         rule='lower/upper/strip/proper/capitalize/f12/as_float/replace/split on nested structures with string, number and None leaves; oracle: result equals the structure '
-             'with the function applied to every leaf on its own, and (where python has the method) the python string method at string leaves. non-trivial = depth >= 2',
-        floor=0.3),
-    Sub('zipper', lambda tier: st.lists(_zarg, max_size=4), run_zipper, quick=3000, thorough=20000,
-        rule='0-4 arguments from scalars, strings, lists/tuples of length 0-4; oracle: zip after broadcasting scalars and length-1 sequences, ValueError iff two lengths '
-             'differ and neither is 1; lens returns the common length. non-trivial = broadcasting, mismatch or empty',
-        floor=0.2, class_floors={'mismatch_raises': 0.04}),
+             'with the function applied to every leaf on its own, and (where python has the method) the python string method at string leaves; replace / split also with `old` / `sep` given as a two-character string or a list / tuple of 1-3 characters, which is matched element by element where a list / tuple of that length sits '
+             '(the model passes it as a companion); every call is made twice on the same objects. non-trivial = depth >= 2',
+        floor=0.3, class_floors={'list_argument_as_long_as_a_sequence_of_the_structure': 0.008, 'string_argument_as_long_as_a_sequence_of_the_structure': 0.006}),
+    Sub('zipper', lambda tier: _zip_case(), run_zipper, quick=3000, thorough=20000,
+        rule='0-4 arguments from scalars, strings, lists / tuples / ranges / 1-d numpy arrays of length 0-4, possibly one sequence object passed twice; in 2 of 5 cases 1-2 further calls on the same argument objects (permuted, cut to a prefix); '
+             'oracle: zip after broadcasting scalars and length-1 sequences, ValueError iff two lengths differ and neither is 1, every call judged by the original content of the arguments; lens returns the common length. non-trivial = broadcasting, mismatch or empty',
+        floor=0.2, class_floors={'mismatch_raises': 0.04, 'range_or_array_argument': 0.15, 'range_or_array_of_length_1_broadcast': 0.015, 'one_sequence_object_passed_twice': 0.017, 'further_calls_on_the_same_objects': 0.09, 'further_calls_after_a_length_1_broadcast': 0.008}),
     Sub('as_list', lambda tier: _al_case(), run_as_list, quick=2000, thorough=10000,
-        rule='None, scalars, strings, lists, tuples, 1-tuples holding a list, ranges, dicts, dict views; oracle: element preservation with exact result type and f(f(x)) == f(x)',
-        floor=0.3),
+        rule='None, scalars, strings, lists, tuples, 1-tuples holding a list, ranges, zips, dicts, dict views, with the option none= left out / False / True; oracle: element preservation with exact result type and f(f(x)) == f(x)',
+        floor=0.3, class_floors={'None_with_none=True': 0.014, 'kind=zip': 0.027}),
     Sub('waiter', lambda tier: _waiter_case(), run_waiter, quick=600, thorough=5000,
-        rule='nested structures holding up to 6 futures/coroutines mixed with plain values; a driver resolves the futures in a generated permutation; oracle: same structure '
-             'and container types with every awaitable replaced by its result. non-trivial = >= 2 awaitables resolved out of creation order',
-        floor=0.05),      # the spec space is small: in the thorough tier most cases repeat earlier ones, so the distinct share is low
+        rule='nested structures holding up to 6 futures/coroutines mixed with plain values, a future possibly placed several times; a driver resolves the futures in a generated permutation; in half of the coroutine-free cases waiter is called '
+             'a second time on the same (now completed) structure; oracle: same structure and container types with every awaitable replaced by its result. non-trivial = >= 2 awaitables resolved out of creation order',
+        floor=0.05, class_floors={'one_future_object_at_several_places': 0.05, 'second_call_on_the_same_completed_futures': 0.065}),      # the spec space is small: in the thorough tier most cases repeat earlier ones, so the distinct share is low
     EnumSub('waiter_all_orders', enum_waiter, run_waiter, chunks=16,
-            rule='7 fixed structures with 3-6 awaitables x every completion order (exhaustive over the permutations)'),
+            rule='8 fixed structures with 3-6 awaitables (one of them placing its futures at several places) x every completion order (exhaustive over the permutations)'),
 ]
